@@ -92,6 +92,16 @@ def run(ctx):
         p_merge(ctx)
     except _Unsup as ex:
         ctx.obligation("update_custom_metadata.out_of_reach", "util.update_custom_metadata", "unknown", "engine", 0.0, detail=str(ex), sample=True)
+    # families of other contracts that carry C16: consolidate_categories (runs on every open of a list / directory and on every _metadata
+    # write) is total on arbitrary user keys and leaves their entries alone; a footer whose size changed is still fetched completely
+    from ._generic import optional_parts
+    for part in optional_parts(("_cats", "p_cats_keys"), ("_many", "p_many_fetch")):
+        try:
+            part(ctx)
+        except _Unsup as ex:
+            ctx.obligation(part.__name__ + ".out_of_reach", "?", "unknown", "engine", 0.0, detail=str(ex), sample=True)
+        except Exception as ex:      # the proof script failed on this source: undecided, never a violation
+            ctx.obligation(part.__name__ + ".out_of_reach", "?", "unknown", "engine", 0.0, detail=f"{type(ex).__name__}: {ex}", sample=True)
     if not os.environ.get("VERIF_SKIP_BOUNDED"):
         try:
             from runtime import c16_update_history
